@@ -245,9 +245,9 @@ theorem exec_whilePop (l : Ex) (i j : Nat) (body : St) : exec h Q call self (.wh
     (match eval self st.vars st.logs.length l with
      | some (.log p) => popLoop p i j (fun s => exec h Q call self body s) (st.logs.getD p []).length st
      | _ => (st, .stuck)) := rfl
-theorem exec_callFn (name : String) (args : List Ex) : exec h Q call self (.callFn name args) st =
-    (match evalAll self st.vars st.logs.length args with
-     | some vs => viaCall call (.fn name vs) st
+theorem exec_callFn (name : String) (args : List (Option Ex)) : exec h Q call self (.callFn name args) st =
+    (match evalAllO self st.vars st.logs.length args with
+     | some vs => viaCallT call (.fn name vs) st
      | none => (st, .stuck)) := rfl
 theorem exec_callVar (i : Nat) : exec h Q call self (.callVar i) st =
     (match st.vars i, self with
@@ -258,8 +258,8 @@ theorem exec_assign (i : Nat) (e : Ex) : exec h Q call self (.assign i e) st =
     (match eval self st.vars st.logs.length e with
      | some v => ({ st with vars := setVar st.vars i v, logs := commit v st.logs }, .next)
      | none => (st, .stuck)) := rfl
-theorem exec_construct (dst : Nat) (args : List Ex) : exec h Q call self (.construct dst args) st =
-    (match evalAll self st.vars st.logs.length args with
+theorem exec_construct (dst : Nat) (args : List (Option Ex)) : exec h Q call self (.construct dst args) st =
+    (match (evalAllO self st.vars st.logs.length args).bind (bindArgs Q.initDefaults) with
      | some vs =>
        if vs.length = Q.initParams then
          (match mkFrame Q.init vs st.logs.length with
@@ -283,11 +283,12 @@ theorem run_meth (h : Heap) (Q : Prog) (n : Nat) (name : String) (fr : Frame) (g
       endCall (exec h Q (run h Q n) (some fr) body ⟨g.1, g.2, fun _ => .unbound, none⟩) := by
   simp only [run, hb]
 
-theorem run_fn (h : Heap) (Q : Prog) (n : Nat) (name : String) (args : List PV) (g : G) (f : Func)
-    (hb : Q.fns.lookup name = some f) (hn : args.length = f.nparams) :
+theorem run_fn (h : Heap) (Q : Prog) (n : Nat) (name : String) (args : List (Option PV)) (g : G) (f : Func)
+    (vs : List PV) (hb : Q.fns.lookup name = some f) (hbind : bindArgs f.defaults args = some vs)
+    (hn : vs.length = f.nparams) :
     run h Q (n + 1) (.fn name args) g =
-      endCall (exec h Q (run h Q n) none f.body ⟨g.1, g.2, ofArgs args, none⟩) := by
-  simp only [run, hb, hn, if_true]
+      endCall (exec h Q (run h Q n) none f.body ⟨g.1, g.2, ofArgs vs, none⟩) := by
+  simp only [run, hb, hbind, hn, if_true]
 
 /-- `_add_or_remove_notifiers` is `notifStep`. -/
 theorem run_notifiers (h : Heap) (n : Nat) (k : HKey) (rm ow extra : Bool) (g : Graph) (x : W) (H : Hooks)
@@ -389,8 +390,12 @@ theorem forLoop_single (i : Nat) (f : Sto → Sto × Flow) (v : PV) (st : Sto) :
   cases fl <;> rfl
 
 /-- the arguments of a nested `add_or_remove_notifiers(…, _processed=self._processed)` -/
-def arnArgs (x : W) (gv : GV) (k : HKey) (rm : Bool) : List PV :=
+def arnVals (x : W) (gv : GV) (k : HKey) (rm : Bool) : List PV :=
   [.obj x, .graph gv, .handler k.handler, .obj (some k.target), .disp, .bool rm, .log 0]
+
+def arnArgs (x : W) (gv : GV) (k : HKey) (rm : Bool) : List (Option PV) :=
+  [some (.obj x), some (.graph gv), some (.handler k.handler), some (.obj (some k.target)), some .disp,
+    some (.bool rm), some (.log 0)]
 
 theorem viaCall_rel (call : Callee → G → G × Flow) (c : Callee) (st : Sto) (log : List Item) (t : Tr)
     (hl : st.logs = [log]) (hc : call c (st.H, [log]) = toG t) :
@@ -405,6 +410,19 @@ theorem viaCall_exc (call : Callee → G → G × Flow) (c : Callee) (st : Sto) 
   generalize call c (st.H, st.logs) = r
   obtain ⟨g, fl⟩ := r
   cases fl <;> rfl
+
+/-- the same for a function call as a statement: one log before, one log after — nothing to drop -/
+theorem viaCallT_rel (call : Callee → G → G × Flow) (c : Callee) (st : Sto) (log : List Item) (t : Tr)
+    (hl : st.logs = [log]) (hc : call c (st.H, [log]) = toG t) :
+    Rel (viaCallT call c st) t ∧ (viaCallT call c st).1.vars = st.vars := by
+  obtain ⟨⟨h1, h2, h3⟩, h4⟩ := viaCall_rel call c st log t hl hc
+  unfold viaCallT
+  refine ⟨⟨h1, ?_, h3⟩, h4⟩
+  simp only [h2, hl, List.length_cons, List.length_nil, List.take_succ_cons, List.take_zero]
+
+theorem viaCallT_exc (call : Callee → G → G × Flow) (c : Callee) (st : Sto) : (viaCallT call c st).1.exc = st.exc := by
+  unfold viaCallT
+  exact viaCall_exc call c st
 
 theorem walkCs_eq_foldT (h : Heap) (k : HKey) (rm : Bool) (ob : Observer) (x : W) (cs : List Graph) (H : Hooks)
     (log : List Item) :
@@ -449,8 +467,8 @@ theorem run_children (h : Heap) (n : Nat) (k : HKey) (rm ow extra : Bool) (g : G
     intro y _ st' log'' hI hl'
     rw [exec_callFn]
     have hv : setVar st'.vars 1 (PV.obj y) 0 = .graph (.plain c) := by simp [setVar, hI]
-    simp only [evalAll, eval, Frame.get, Option.map, setVar, hI, if_true, reduceIte, Nat.reduceEqDiff]
-    have := viaCall_rel (run h P n) (.fn "add_or_remove_notifiers" (arnArgs y (.plain c) k rm))
+    simp only [evalAllO, eval, Frame.get, Option.map, setVar, hI, if_true, reduceIte, Nat.reduceEqDiff]
+    have := viaCallT_rel (run h P n) (.fn "add_or_remove_notifiers" (arnArgs y (.plain c) k rm))
       { st' with vars := setVar st'.vars 1 (PV.obj y) } log'' _ hl' (ih c hc y st'.H log'')
     simp only [arnArgs] at this
     exact ⟨this.1, by rw [this.2]; exact hv⟩
@@ -483,8 +501,8 @@ theorem run_extra (h : Heap) (n : Nat) (k : HKey) (rm ow extra : Bool) (g : Grap
     | true =>
       simp only [if_true, List.map_cons, List.map_nil, forLoop_single]
       rw [exec_callFn]
-      simp only [evalAll, eval, Frame.get, Option.map, setVar, if_true]
-      have := (viaCall_rel (run h P n) (.fn "add_or_remove_notifiers" (arnArgs x (.added g) k rm))
+      simp only [evalAllO, eval, Frame.get, Option.map, setVar, if_true]
+      have := (viaCallT_rel (run h P n) (.fn "add_or_remove_notifiers" (arnArgs x (.added g) k rm))
         ⟨H, [log], setVar (fun _ => PV.unbound) 0 (PV.graph (.added g)), none⟩ log _ rfl (ih H log)).1
       simp only [arnArgs] at this
       exact this
@@ -518,7 +536,9 @@ theorem run_ne_returned (h : Heap) (Q : Prog) (n : Nat) (c : Callee) (g : G) : (
       simp only [run]
       split
       · split
-        · exact endCall_ne_returned _
+        · split
+          · exact endCall_ne_returned _
+          · simp
         · simp
       · simp
     | meth name fr =>
@@ -593,20 +613,22 @@ theorem run_call_shared (h : Heap) (n : Nat) (fr : Frame) (how : fr.owns = false
 
 
 theorem mkFrame_shared (x : W) (gv : GV) (k : HKey) (rm : Bool) :
-    mkFrame P.init (arnArgs x gv k rm) 1 = some (mkFr x gv k rm false) := rfl
+    mkFrame P.init (arnVals x gv k rm) 1 = some (mkFr x gv k rm false) := rfl
 
 /-- a nested `add_or_remove_notifiers(…, _processed=<the log>)` builds the instance and calls it -/
 theorem run_arn_shared (h : Heap) (n : Nat) (x : W) (gv : GV) (k : HKey) (rm : Bool) (H : Hooks) (log : List Item) :
     run h P (n + 1) (.fn "add_or_remove_notifiers" (arnArgs x gv k rm)) (H, [log]) =
       run h P n (.meth "__call__" (mkFr x gv k rm false)) (H, [log]) := by
-  rw [run_fn h P n _ _ _ _ (by rfl) (by rfl)]
+  rw [run_fn h P n _ _ _ _ (arnVals x gv k rm) (by rfl) (by rfl) (by rfl)]
   dsimp only
   rw [exec_seq, exec_construct]
-  have hinit : P.initParams = (arnArgs x gv k rm).length := rfl
-  simp only [evalAll, eval, ofArgs, arnArgs, List.getD_eq_getElem?_getD, List.getElem?_cons_succ,
-    List.getElem?_cons_zero, Option.getD_some, List.length_cons, List.length_nil]
+  have hinit : P.initParams = (arnVals x gv k rm).length := rfl
+  simp only [evalAllO, eval, ofArgs, arnVals, List.getD_eq_getElem?_getD, List.getElem?_cons_succ,
+    List.getElem?_cons_zero, Option.getD_some, List.length_cons, List.length_nil, Option.map, Option.bind]
+  have hbd : bindArgs P.initDefaults (arnArgs x gv k rm) = some (arnVals x gv k rm) := rfl
   have := mkFrame_shared x gv k rm
-  simp only [arnArgs] at this hinit
+  simp only [arnArgs, arnVals] at this hinit hbd
+  simp only [hbd]
   simp only [hinit, this, List.length_cons, List.length_nil, if_true]
   simp [commit, setVar, exec_callVar, mkFr, endCall_viaCall]
 
@@ -845,8 +867,8 @@ theorem popLoop_undo (h : Heap) (Q : Prog) (call : Callee → G → G × Flow) (
 
 /-- `undo_processed(processed, remove)` -/
 theorem run_undo (h : Heap) (n : Nat) (rm : Bool) (H : Hooks) (log : List Item) :
-    run h P (n + 1) (.fn "undo_processed" [.log 0, .bool rm]) (H, [log]) = toG (undoS rm log H) := by
-  rw [run_fn h P n _ _ _ _ (by rfl) (by rfl)]
+    run h P (n + 1) (.fn "undo_processed" [some (.log 0), some (.bool rm)]) (H, [log]) = toG (undoS rm log H) := by
+  rw [run_fn h P n _ _ _ _ [.log 0, .bool rm] (by rfl) (by rfl) (by rfl)]
   simp only [P, observeProg]
   rw [exec_whilePop]
   simp only [eval, ofArgs, List.getD_eq_getElem?_getD, List.getElem?_cons_zero, Option.getD_some]
@@ -871,7 +893,7 @@ theorem call_tail_owner (h : Heap) (n : Nat) (fr : Frame) (how : fr.owns = true)
     endCall (exec h P (run h P (n + 1)) (some fr)
       (.seq (.ifS (.not (.selfF .ownsProcessed)) (.seq (.forIn 1 (.var 0) (.callVar 1)) .ret) .skip)
         (.tryS (.forIn 1 (.var 0) (.callVar 1))
-          (.seq (.callFn "undo_processed" [(.selfF .processed), (.selfF .remove)]) .reraise)
+          (.seq (.callFn "undo_processed" [(some (.selfF .processed)), (some (.selfF .remove))]) .reraise)
           (.clear (.selfF .processed)))) st0) =
       toG (finishS fr.remove (foldT F ms st0.H log)) := by
   rw [exec_seq, exec_ifS]
@@ -900,12 +922,12 @@ theorem call_tail_owner (h : Heap) (n : Nat) (fr : Frame) (how : fr.owns = true)
       | some e' => rw [hx] at h3; simp only [flowOf, Flow.raised.injEq] at h3; rw [h3]
     simp only
     rw [exec_seq, exec_callFn]
-    simp only [evalAll, eval, Frame.get, Option.map, hp]
-    have hu := viaCall_rel (run h P (n + 1)) (.fn "undo_processed" [.log 0, .bool fr.remove])
+    simp only [evalAllO, eval, Frame.get, Option.map, hp]
+    have hu := viaCallT_rel (run h P (n + 1)) (.fn "undo_processed" [some (.log 0), some (.bool fr.remove)])
       { st' with exc := some e } _ _ h2 (run_undo h n fr.remove st'.H _)
-    have hexc := viaCall_exc (run h P (n + 1)) (.fn "undo_processed" [.log 0, .bool fr.remove])
+    have hexc := viaCallT_exc (run h P (n + 1)) (.fn "undo_processed" [some (.log 0), some (.bool fr.remove)])
       { st' with exc := some e }
-    generalize viaCall _ _ _ = r at hu hexc
+    generalize viaCallT _ _ _ = r at hu hexc
     obtain ⟨st'', fl'⟩ := r
     obtain ⟨⟨u1, u2, u3⟩, u4⟩ := hu
     simp only at hexc
@@ -956,23 +978,31 @@ theorem run_call_owner (h : Heap) (n : Nat) (fr : Frame) (how : fr.owns = true) 
     exact this
 
 /-- the arguments of an outermost `add_or_remove_notifiers(…)` (`_processed` left at its default `None`) -/
-def ownArgs (x : W) (gv : GV) (k : HKey) (rm : Bool) : List PV :=
+def ownVals (x : W) (gv : GV) (k : HKey) (rm : Bool) : List PV :=
   [.obj x, .graph gv, .handler k.handler, .obj (some k.target), .disp, .bool rm, .none]
 
+/-- `_processed` is OMITTED: the interpreter takes the default written in the signature -/
+def ownArgs (x : W) (gv : GV) (k : HKey) (rm : Bool) : List (Option PV) :=
+  [some (.obj x), some (.graph gv), some (.handler k.handler), some (.obj (some k.target)), some .disp,
+    some (.bool rm), none]
+
 theorem mkFrame_owner (x : W) (gv : GV) (k : HKey) (rm : Bool) :
-    mkFrame P.init (ownArgs x gv k rm) 0 = some (mkFr x gv k rm true) := rfl
+    mkFrame P.init (ownVals x gv k rm) 0 = some (mkFr x gv k rm true) := rfl
 
 theorem run_arn_owner (h : Heap) (n : Nat) (x : W) (gv : GV) (k : HKey) (rm : Bool) (H : Hooks) :
     run h P (n + 1) (.fn "add_or_remove_notifiers" (ownArgs x gv k rm)) (H, []) =
       run h P n (.meth "__call__" (mkFr x gv k rm true)) (H, [[]]) := by
-  rw [run_fn h P n _ _ _ _ (by rfl) (by rfl)]
+  rw [run_fn h P n _ _ _ _ (ownVals x gv k rm) (by rfl) (by rfl) (by rfl)]
   dsimp only
   rw [exec_seq, exec_construct]
-  have hinit : P.initParams = (ownArgs x gv k rm).length := rfl
-  simp only [evalAll, eval, ofArgs, ownArgs, List.getD_eq_getElem?_getD, List.getElem?_cons_succ,
-    List.getElem?_cons_zero, Option.getD_some, List.length_cons, List.length_nil]
+  have hinit : P.initParams = (ownVals x gv k rm).length := rfl
+  simp only [evalAllO, eval, ofArgs, ownVals, List.getD_eq_getElem?_getD, List.getElem?_cons_succ,
+    List.getElem?_cons_zero, Option.getD_some, List.length_cons, List.length_nil, Option.map, Option.bind]
+  have hbd : bindArgs P.initDefaults [some (.obj x), some (.graph gv), some (.handler k.handler),
+      some (.obj (some k.target)), some .disp, some (.bool rm), some .none] = some (ownVals x gv k rm) := rfl
   have := mkFrame_owner x gv k rm
-  simp only [ownArgs] at this hinit
+  simp only [ownVals] at this hinit hbd
+  simp only [hbd]
   simp only [hinit, this, List.length_cons, List.length_nil, if_true]
   simp [commit, setVar, exec_callVar, mkFr, endCall_viaCall]
 
@@ -1062,17 +1092,18 @@ def undoRaise (rm : Bool) (e : Exc) (t : Tr) : Tr :=
   | none => ((undoS rm t.2.1 t.1).1, (undoS rm t.2.1 t.1).2.1, some e)
   | some e' => ((undoS rm t.2.1 t.1).1, (undoS rm t.2.1 t.1).2.1, some e')
 
-theorem undo_reraise (h : Heap) (n : Nat) (self : Option Frame) (args : List Ex) (st' : Sto) (e : Exc) (rm : Bool)
-    (log : List Item) (hl : st'.logs = [log]) (hev : evalAll self st'.vars 1 args = some [.log 0, .bool rm]) :
+theorem undo_reraise (h : Heap) (n : Nat) (self : Option Frame) (args : List (Option Ex)) (st' : Sto) (e : Exc)
+    (rm : Bool) (log : List Item) (hl : st'.logs = [log])
+    (hev : evalAllO self st'.vars 1 args = some [some (.log 0), some (.bool rm)]) :
     endCall (exec h P (run h P (n + 1)) self (.seq (.callFn "undo_processed" args) .reraise)
       { st' with exc := some e }) = toG (undoRaise rm e (st'.H, log, none)) := by
   rw [exec_seq, exec_callFn]
   have hlen : st'.logs.length = 1 := by rw [hl]; rfl
   simp only [hlen, hev]
-  have hu := viaCall_rel (run h P (n + 1)) (.fn "undo_processed" [.log 0, .bool rm])
+  have hu := viaCallT_rel (run h P (n + 1)) (.fn "undo_processed" [some (.log 0), some (.bool rm)])
     { st' with exc := some e } _ _ hl (run_undo h n rm st'.H _)
-  have hexc := viaCall_exc (run h P (n + 1)) (.fn "undo_processed" [.log 0, .bool rm]) { st' with exc := some e }
-  generalize viaCall _ _ _ = r at hu hexc
+  have hexc := viaCallT_exc (run h P (n + 1)) (.fn "undo_processed" [some (.log 0), some (.bool rm)]) { st' with exc := some e }
+  generalize viaCallT _ _ _ = r at hu hexc
   obtain ⟨st'', fl'⟩ := r
   obtain ⟨⟨u1, u2, u3⟩, _⟩ := hu
   simp only at u1 u2 u3 hexc
@@ -1104,16 +1135,20 @@ def finishA (rm : Bool) (t : Tr) : Tr :=
   | none => t
   | some e => undoRaise rm e t
 
+/-- the parameter defaults of the translated `apply_observers` -/
+def applyDefaults : List (Option Ex) := ((P.fns.lookup "apply_observers").map (·.defaults)).getD []
+
 /-- SOURCE TIE.  `apply_observers(object, graphs, handler, dispatcher=…, remove=…)` as translated from
 observe.py is the model's loop over the graphs with one shared log, then `finishA`. -/
 theorem run_apply_observers (h : Heap) (hd : Nat) (root : Id) (rm : Bool) (gs : List Graph) (H : Hooks) (n : Nat)
-    (hn : needL gs ≤ n) :
-    run h P (n + 1) (.fn "apply_observers"
-        [.obj (some root), .graphs (gs.map .plain), .handler hd, .disp, .bool rm]) (H, []) =
+    (hn : needL gs ≤ n) (args : List (Option PV))
+    (hargs : bindArgs applyDefaults args =
+      some [.obj (some root), .graphs (gs.map .plain), .handler hd, .disp, .bool rm]) :
+    run h P (n + 1) (.fn "apply_observers" args) (H, []) =
       toG (finishA rm (applyObserversW h ⟨hd, root⟩ rm (some root) gs H [])) := by
   have h3 := needL_ge gs
   obtain ⟨n', rfl⟩ : ∃ n', n = n' + 1 := ⟨n - 1, by omega⟩
-  rw [run_fn h P (n' + 1) _ _ _ _ (by rfl) (by rfl)]
+  rw [run_fn h P (n' + 1) _ _ _ _ _ (by rfl) (show _ from hargs) (by rfl)]
   dsimp only
   rw [exec_seq, exec_assign]
   simp only [eval, commit, List.length_nil, if_true, List.nil_append]
@@ -1123,7 +1158,7 @@ theorem run_apply_observers (h : Heap) (hd : Nat) (root : Id) (rm : Bool) (gs : 
   simp only [eval, hv1, List.map_map]
   have hloop := forLoop_rel (PV.graph ∘ GV.plain) 6
     (fun s => exec h P (run h P (n' + 1)) none (.callFn "add_or_remove_notifiers"
-      [(.var 0), (.var 6), (.var 2), (.var 0), (.var 3), (.var 4), (.var 5)]) s)
+      [(some (.var 0)), (some (.var 6)), (some (.var 2)), (some (.var 0)), (some (.var 3)), (some (.var 4)), (some (.var 5))]) s)
     (fun g => walk h ⟨hd, root⟩ rm true g (some root))
     (fun vars => vars 0 = .obj (some root) ∧ vars 2 = .handler hd ∧ vars 3 = .disp ∧ vars 4 = .bool rm ∧
       vars 5 = .log 0) gs ?_
@@ -1150,7 +1185,7 @@ theorem run_apply_observers (h : Heap) (hd : Nat) (root : Id) (rm : Bool) (gs : 
         | none => rw [hx] at h3'; simp [flowOf] at h3'
         | some e' => rw [hx] at h3'; simp only [flowOf, Flow.raised.injEq] at h3'; rw [h3']
       simp only
-      rw [undo_reraise h n' none _ st' e rm _ h2 (by simp [evalAll, eval, hI])]
+      rw [undo_reraise h n' none _ st' e rm _ h2 (by simp [evalAllO, eval, hI])]
       simp only [finishA, hx, undoRaise, h1]
   · intro g hg st log hI hl
     rw [exec_callFn]
@@ -1158,9 +1193,9 @@ theorem run_apply_observers (h : Heap) (hd : Nat) (root : Id) (rm : Bool) (gs : 
     have hI' : ∀ j, j ≠ 6 → setVar st.vars 6 ((PV.graph ∘ GV.plain) g) j = st.vars j := by
       intro j hj; simp [setVar, hj]
     have hself : setVar st.vars 6 ((PV.graph ∘ GV.plain) g) 6 = PV.graph (GV.plain g) := by simp [setVar]
-    simp only [evalAll, eval, hI' 0 (by decide), hI' 2 (by decide), hI' 3 (by decide), hI' 4 (by decide),
+    simp only [evalAllO, eval, hI' 0 (by decide), hI' 2 (by decide), hI' 3 (by decide), hI' 4 (by decide),
       hI' 5 (by decide), v0, v2, v3, v4, v5, hself]
-    have := viaCall_rel (run h P (n' + 1)) (.fn "add_or_remove_notifiers" (arnArgs (some root) (.plain g) ⟨hd, root⟩ rm))
+    have := viaCallT_rel (run h P (n' + 1)) (.fn "add_or_remove_notifiers" (arnArgs (some root) (.plain g) ⟨hd, root⟩ rm))
       { st with vars := setVar st.vars 6 ((PV.graph ∘ GV.plain) g) } log _ hl
       (by
         have := run_arn_walk h ⟨hd, root⟩ g rm true (some root) st.H log (n' + 1)
